@@ -289,6 +289,7 @@ type vC20WireNext struct {
 	subMark  int
 	calls    int
 	subCalls int
+	subReq   *dns.Msg // the sub-query as it reached the sub-pipeline's handler
 	cut      *vC20CutPlan // folded into the tree's ResponseMeta: client query = "next handler", sub-query = "Queryer"
 }
 
@@ -299,6 +300,9 @@ func (h *vC20WireNext) ServeDNS(ctx context.Context, ch *middleware.Chain) {
 	mark := 0
 	if ch.Writer.Internal() {
 		h.subCalls++
+		if rm := ch.Request.Msg(); rm != nil {
+			h.subReq = rm.Copy()
+		}
 		m, mark = h.sub, h.subMark
 		h.cut.fold(ctx, 1)
 	} else {
@@ -419,12 +423,13 @@ func (u *vC20UDP) runOnce(o *vC20Out, sc *vC20Scenario, corpus string) bool {
 	u.next.mu.Lock()
 	sc.cut.reset()
 	u.next.down, u.next.mark, u.next.sub, u.next.subMark, u.next.calls, u.next.subCalls, u.next.cut = sc.down, sc.mark, sub, subMark, 0, 0, sc.cut
+	u.next.subReq = nil
 	u.next.mu.Unlock()
 
 	req := sc.req.Copy()
 	got := u.exchange(req)
 	u.next.mu.Lock()
-	calls, subCalls := u.next.calls, u.next.subCalls
+	calls, subCalls, subReq := u.next.calls, u.next.subCalls, u.next.subReq
 	u.next.cut = nil
 	cutOK, cutCoq, cutDesc, bounded := sc.cut.ok(), sc.cut.coq(), sc.cut.desc(), sc.cut != nil && sc.cut.folded
 	u.next.mu.Unlock()
@@ -437,7 +442,7 @@ func (u *vC20UDP) runOnce(o *vC20Out, sc *vC20Scenario, corpus string) bool {
 		"exclude_a": sc.cfg.DNS64.ExcludeANetworks, "exclude_aaaa": sc.cfg.DNS64.ExcludeAAAANetworks,
 		"query": fmt.Sprintf("%s %s class=%d rd=%v cd=%v opt=%v over UDP from 127.0.0.1", qname, dns.TypeToString[qtype], req.Question[0].Qclass, req.RecursionDesired, req.CheckingDisabled, sc.hasOPT),
 		"down": vC20Desc(sc.down), "mark": sc.mark, "sub_query_script": vC20Desc(sub), "sub_mark": subMark,
-		"reply": vC20Desc(got), "next_called": calls, "sub_queries": subCalls, "tree_bound": cutDesc,
+		"reply": vC20Desc(got), "next_called": calls, "sub_queries": subCalls, "sub_query": vC20SubQDesc(subReq), "tree_bound": cutDesc,
 	}
 	if corpus != "" {
 		desc["corpus"] = corpus
@@ -452,8 +457,8 @@ func (u *vC20UDP) runOnce(o *vC20Out, sc *vC20Scenario, corpus string) bool {
 	for _, c := range gotEdes {
 		es = append(es, strconv.Itoa(int(c)))
 	}
-	obs := fmt.Sprintf("(mk_obs true false %d %s [%s]%%N %s %s %s)", got.Rcode, vC20Bool(got.AuthenticatedData), strings.Join(es, "; "),
-		vC20RRs(got.Answer), vC20Bool(subCalls > 0), vC20Bool(calls > 0))
+	obs := fmt.Sprintf("(mk_obs true false %d %s [%s]%%N %s %s %s %s)", got.Rcode, vC20Bool(got.AuthenticatedData), strings.Join(es, "; "),
+		vC20RRs(got.Answer), vC20Bool(subCalls > 0), vC20Bool(calls > 0), vC20SubQ(subReq))
 	qCoq := fmt.Sprintf("(mk_query 1 %d %d %s %s %s %s false (hx \"7f000001\"))", req.Question[0].Qclass, qtype, vC20Bs(qname),
 		vC20Bool(req.RecursionDesired), vC20Bool(req.CheckingDisabled), vC20Bool(sc.hasOPT))
 	synth := false
